@@ -48,6 +48,56 @@ ASSUMPTIONS = [
 ]
 
 
+# normalised-AST hashes (core.ast_hash) of the hand-modelled functions at the time the models were written.
+# A changed hash is not an alarm (DESIGN 2.2): it is recorded in the evidence and raises the correspondence budget
+# (the quick tier then also runs the exhaustive small scopes / three times the trees).
+PINNED_AST = {
+    "hasher.py:merkle_root": "af6380d253f26844",
+    "hasher.py:HasherV2.__init__": "a793c4fe2565feee",
+    "hasher.py:HasherV2.process_file": "e07e40eaf0538e34",
+    "hasher.py:HasherV2._calculate_root": "d0b889f95d7f2545",
+    "hasher.py:HasherHybrid.__init__": "1265b51bc4a80ce2",
+    "hasher.py:HasherHybrid._pad_remaining": "116802fd1d237380",
+    "hasher.py:HasherHybrid.process_file": "3eccc12fcaab89bb",
+    "hasher.py:HasherHybrid._calculate_root": "cdf6cb7bc11e6faa",
+    "hasher.py:FileHasher.__init__": "4afee2fb4ba7871a",
+    "hasher.py:FileHasher.__iter__": "1317b80cc879e83b",
+    "hasher.py:FileHasher._pad_remaining": "116802fd1d237380",
+    "hasher.py:FileHasher.__next__": "e563da67427dcbd1",
+    "hasher.py:FileHasher._calculate_root": "4e7eefdaf2c3d084",
+    "utils.py:next_power_2": "edf2f49d75b66e79",
+    "torrent.py:TorrentFileV2.__init__": "2d55c97eba0bee4e",
+    "torrent.py:TorrentFileV2.assemble": "2efcee2747868431",
+    "torrent.py:TorrentFileV2._traverse": "03790994f32e33bf",
+    "torrent.py:TorrentFileHybrid.__init__": "4e736e74ec30688f",
+    "torrent.py:TorrentFileHybrid.assemble": "bc7e10ed69bdd4a3",
+    "torrent.py:TorrentFileHybrid._traverse": "36b7deac77d5fb90",
+    "torrent.py:TorrentAssembler.__init__": "ad4d28f4f4b8747f",
+    "torrent.py:TorrentAssembler.assemble": "dc9f5af224baa4a7",
+    "torrent.py:TorrentAssembler._traverse": "4e82ab8222959110",
+}
+
+
+def record_ast(ctx):
+    """stores the current hashes in the evidence; returns the names whose source changed since the models were written"""
+    now = {}
+    try:
+        for f in ("hasher.py", "utils.py", "torrent.py"):
+            names = [k.split(":", 1)[1] for k in PINNED_AST if k.startswith(f + ":")]
+            got = core.ast_hash(os.path.join(core.REPO, "torrentfile", f), names)
+            now.update({f + ":" + k: v for k, v in got.items()})
+    except Exception as e:  # noqa
+        ctx.notes.append(f"ast hash failed: {e}")
+        return sorted(PINNED_AST)
+    changed = sorted(k for k in PINNED_AST if now.get(k) != PINNED_AST[k])
+    ctx.extra["ast_hashes"] = now
+    ctx.extra["ast_changed_since_model"] = changed
+    if changed:
+        ctx.notes.append("source of hand-modelled functions changed since the models were written (correspondence budget "
+                         "raised): " + ", ".join(changed))
+    return changed
+
+
 class NoProg:
     def update(self, *_):
         pass
@@ -270,8 +320,9 @@ def unit_cases(ctx):
             cases.append((B_REAL, pl, s, False))
     cases.append((B_REAL, B_REAL, 0, False))
     cases.append((B_REAL, 4 * B_REAL, 0, False))
-    if ctx.tier == "thorough":
-        for _ in range(160):
+    raised = any(not k.startswith("torrent.py") for k in ctx.extra.get("ast_changed_since_model", []))
+    if ctx.tier == "thorough" or raised:
+        for _ in range(160 if ctx.tier == "thorough" else 30):
             pl = ctx.rng.choice([1, 2, 4, 8, 16, 32]) * B_REAL
             cases.append((B_REAL, pl, ctx.rng.randrange(1, min(LIMIT, 10 * pl)), False))
         for pl in (4, 8, 16, 32):
@@ -380,7 +431,7 @@ def unit(ctx, prop, model_ok):
                      "no such parameter: the padding=False rows of the model are not tied to the code")
     with core.Scratch("v" + prop.lower() + "u_") as tmp:
         path = os.path.join(tmp, "file.bin")
-        for b in sorted({c[0] for c in cases}):
+        for b in sorted({c[0] for c in cases}, reverse=True):       # the real constant first
             with block_size(b):
                 for (cb, pl, size, patched) in cases:
                     if cb != b:
@@ -395,7 +446,7 @@ def unit(ctx, prop, model_ok):
                         ctx.fail("hasher-raised", inp, "root, layer, pieces", f"{type(e).__name__}: {e}")
                         continue
                     for kind, h, exp, obs in oracle_problems(prop, res, data, pl):
-                        ctx.fail(kind + ("-patched" if patched else ""), dict(inp, hasher=HASHER_NAMES.get(h, h)),
+                        ctx.fail(kind, dict(inp, hasher=HASHER_NAMES.get(h, h)),
                                  _short(exp), _short(obs))
                     cl = classify_size(size, pl, b)
                     if patched:
@@ -904,6 +955,8 @@ def e2e(ctx, prop):
     """the creators of this property on generated content trees, judged against the reference oracle / each other"""
     import shutil
     n = 24 if ctx.tier == "quick" else 400
+    if ctx.tier == "quick" and any(k.startswith("torrent.py") for k in ctx.extra.get("ast_changed_since_model", [])):
+        n *= 3
     salt = ctx.rng.getrandbits(48)
     core.use_repo_in_process()
     with core.Scratch("v" + prop.lower() + "e_") as tmp:
